@@ -86,6 +86,8 @@ class AttributeCollection(MutableMapping[int, Attribute]):
     cached: ClassVar[AttributeCollection | None] = None
     # previously parsed attribute, from which cached was made of
     previous: ClassVar[Buffer] = b''
+    # whether the session 'previous' was parsed for had negotiated 4-byte AS numbers
+    previous_asn4: ClassVar[bool] = False
 
     representation: ClassVar[dict[int, tuple[str, str, str | tuple[str, ...], str, str]]] = {
         # key:  (how, default, name, text_presentation, json_presentation),
@@ -358,7 +360,9 @@ class AttributeCollection(MutableMapping[int, Attribute]):
 
     @classmethod
     def unpack(cls, data: Buffer, negotiated: Negotiated) -> AttributeCollection:
-        if cls.cached and data == cls.previous:
+        # the same bytes decode differently with and without 4-byte AS numbers (AS_PATH,
+        # AGGREGATOR): the cached result only stands for a session negotiated alike
+        if cls.cached and data == cls.previous and negotiated.asn4 == cls.previous_asn4:
             return cls.cached
 
         attributes = cls().parse(data, negotiated)
@@ -371,6 +375,7 @@ class AttributeCollection(MutableMapping[int, Attribute]):
 
         if Attribute.CODE.MP_REACH_NLRI not in attributes and Attribute.CODE.MP_UNREACH_NLRI not in attributes:
             cls.previous = data
+            cls.previous_asn4 = negotiated.asn4
             cls.cached = attributes
         else:
             cls.previous = b''
